@@ -162,6 +162,8 @@ def grid_project(d, c, fault):
         t.append('output-filename = "%s"' % cfg["ofn"])
     if fault == "config":
         t.append('no-such-option = 1')
+    if fault == "bpl0":
+        t += ['[formatting.listing]', 'num-bytes-per-line = 0']
     open(os.path.join(d, "mos.toml"), "w").write("\n".join(t) + "\n")
     src = []
     for b in range(1, cfg["banks"] + 1):
